@@ -1,4 +1,5 @@
 import OxyModel.Proofs.Counter.Ratio
+import OxyModel.Proofs.Counter.Clone
 
 /-!
 # C17 — rolling counters count the recent window
@@ -129,6 +130,29 @@ theorem C17_ratio_empty (c : Cfg) (hc : Accepted c) (h : List (Nat × REv)) (now
         not_slot_of_old c.n c.r (r_pos hc) (hidle _ (mem_incsB he) rfl))]
   rfl
 
+/-- **C17 (a clone is independent)**: a live counter and a snapshot taken with `Clone()` are driven by
+    an arbitrarily interleaved history `h` of events on either (`Duo.run`).  Then
+    (1) the live counter is *exactly* the counter its own history alone produces (`liveHist h`: its own
+        events, a read per `Clone()`, snapshot events dropped) — nothing done to the snapshot changes it,
+        so its reads are the exact window of its own increments;
+    (2) a read of the snapshot is the exact window of the increments the snapshot holds (`snapIncs h`:
+        the live counter's up to `Clone()`, then the snapshot's own) — nothing done to the live counter
+        afterwards changes it. -/
+theorem C17_clone_independent (c : Cfg) (hc : Accepted c) (h : List (Nat × DEv)) (now : Nat)
+    (ht : Timeline c (h.map Prod.fst) now) :
+    (Duo.run c h).live = run c (liveHist h) ∧
+    (count c (Duo.run c h).live now).2
+      = sumIf (fun u => now / c.r < u / c.r + c.n) (incs (liveHist h)) ∧
+    ∀ s, (Duo.run c h).snap = some s →
+      (count c s now).2 = sumIf (fun u => now / c.r < u / c.r + c.n) (snapIncs h) := by
+  have hsub := liveHist_sublist h
+  have ht' : Timeline c ((liveHist h).map Prod.fst) now :=
+    ⟨ht.sorted.sublist hsub, fun t m => ht.now_last t (hsub.subset m),
+     fun t m => ht.after1970 t (hsub.subset m), ht.now_after1970⟩
+  refine ⟨run_live c h, ?_, fun s hs => ?_⟩
+  · rw [run_live c h]; exact C17_exact c hc (liveHist h) now ht'
+  · exact snap_run_exact c hc.buckets (r_pos hc) h now ht.sorted (tl ht).1 (tl ht).2 ht.now_after1970 s hs
+
 /-! ### non-vacuity: concrete histories satisfy the hypotheses and the conclusions are not trivial -/
 
 /-- 2020-01-01T00:00:00Z -/
@@ -163,6 +187,18 @@ example : Timeline exC (exH.map Prod.fst) (s 17) ∧
 example : (count ⟨10, 2000000000⟩ (run ⟨10, 2000000000⟩ [(T0, .inc 1)]) (T0 + 10000000000)).2 = 1 ∧
     (count ⟨10, 2000000000⟩ (run ⟨10, 2000000000⟩ [(T0, .inc 1)]) (T0 + 18000000000)).2 = 1 ∧
     (count ⟨10, 2000000000⟩ (run ⟨10, 2000000000⟩ [(T0, .inc 1)]) (T0 + 20000000000)).2 = 0 := by decide
+
+/-- the shared-bucket scenario: increment, `Clone()`, two more increments on the live counter in later
+    slots, then the snapshot is read (and incremented), then the live counter -/
+private def exD : List (Nat × DEv) :=
+  [(s 0, .live (.inc 1)), (s 0, .clone), (s 3, .live (.inc 10)), (s 6, .live (.inc 100)),
+   (s 6, .snap .read), (s 6, .snap (.inc 7)), (s 6, .live .read)]
+
+example : Timeline exC (exD.map Prod.fst) (s 6) := ⟨by decide, by decide, by decide, by decide⟩
+example : (count exC (Duo.run exC exD).live (s 6)).2 = 111 ∧
+    (Duo.run exC exD).snap.map (fun x => (count exC x (s 6)).2) = some 8 ∧
+    snapIncs exD = [(s 6, 7), (s 0, 1)] ∧
+    incs (liveHist exD) = [(s 6, 100), (s 3, 10), (s 0, 1)] := by decide
 
 private def exR : List (Nat × REv) :=
   [(s 0, .incA 1), (s 0, .incB 3), (s 4, .incA 2), (s 5, .read), (s 6, .incB 1)]
